@@ -5,6 +5,27 @@ ROOT = os.path.dirname(os.path.dirname(os.path.abspath(__file__)))
 ids = [json.loads(l)["id"] for l in open(os.path.join(ROOT, "properties.jsonl"))]
 
 CLAIMED = {
+ "C06": dict(
+   text="Lean 4 theorems over the provider state machine Model/Provider.lean (authorize, redeem with PKCE, device authorize / user decision / poll, clock): "
+        "redeemCheck_ok_spec + redeem_token_implies (a token is issued for a code only if the code is in the store — i.e. issued here and unconsumed —, belongs to the "
+        "authenticated client, is unexpired, the redirect URI is identical when one was sent, and PKCE is satisfied; the token carries the approving user and the "
+        "code is consumed), code_single_use (INVARIANT over ALL operation sequences of any length: no two tokens for one code, a redeemed code is gone), "
+        "poll_token_implies and poll_no_token_unless_approved (device flow). PKCE patterns are regenerated from challenge.py. Correspondence: random walks and directed "
+        "histories (boundary verifiers 42/43/128/129 chars, trailing newline, replay, other client, redirect present/absent, expiry) against the real provider; every "
+        "step output and the final store compared; history oracle written from the statement.",
+   note="Trusted: Lean kernel; reference integrator (memserver.py on the repo's sqla_oauth2 mixins); client authentication inside histories is abstracted to "
+        "'authenticates as X via method m' (C07); SHA-256 for S256 is native Lean, self-tested under C01.",
+   technique="Lean 4 proof (step characterisation + invariant by induction over all histories) + differential correspondence on histories + statement oracle",
+   design="§4 C06"),
+ "C09": dict(
+   text="Lean 4 theorems over the same state machine (issue, refresh, revoke, introspect, access, clock): refresh_ok_implies_unrevoked_same_client (and the replaced "
+        "credential is revoked in the same step), owner_revoke_is_permanent (after the owner's revocation request, for EVERY later operation sequence the token is refused by "
+        "the resource protector and never reported active), foreign_revoke_refused_and_frame and unknown_revoke_200_and_frame (state unchanged), "
+        "expired_or_unknown_refused, bounded_reachable. Correspondence: random walks (3 clients, tokens referenced by access or refresh string, all hints) and directed "
+        "revoke-then-use histories against the real provider built on the repo's own sqla_oauth2 functions; per-step outputs and final store compared; history oracle.",
+   note="Trusted: Lean kernel; reference integrator; introspection permission = same client; ContinueIteration chaining with RFC 9068 endpoints is not modelled.",
+   technique="Lean 4 proof (monotone revocation invariant over all histories) + differential correspondence on histories + statement oracle",
+   design="§4 C09"),
  "C07": dict(
    text="Lean 4 theorems over Model/ClientAuth.lean (extract_basic_authorization incl. lenient base64, UTF-8 check, first-colon split and unquote; "
         "authenticate_client_secret_basic / _post / authenticate_none with their raise-on-unknown-client rules; the ClientAuthentication.authenticate loop with "
